@@ -112,6 +112,16 @@ class Post(object):
             for pth in (g, b):
                 out.append([] if os.path.getsize(pth) == 0 else read_all(pth))
             return out
+        if fname in ('plot_params_1d', 'plot_params_2d'):
+            import matplotlib.pyplot as plt
+            from sedfitter import plot_params_1d, plot_params_2d
+            p = self.path('pp')
+            if fname == 'plot_params_1d':
+                plot_params_1d(inp, 'par1', output_dir=p, select_format=sel, format='png', log_x=False)
+            else:
+                plot_params_2d(inp, 'par1', 'par2', output_dir=p, select_format=sel, format='png', log_x=False, log_y=False)
+            plt.close('all')
+            return sorted(os.listdir(p))          # one figure per source (the rendering itself is not compared)
         if fname == 'plot':
             import matplotlib.pyplot as plt
             figs = plot(inp, output_dir=None, select_format=sel)
@@ -142,11 +152,15 @@ def run(ctx):
                 'filter_output, plot(output_dir=None) driven with a file / one object / a list, and sequences of <=3 calls with different selectors on the '
                 'same in-memory results vs on the file. a case = one fit() run or one post-processing comparison; non-trivial = >=2 records or >=2 calls')
     ctx.assume('records are compared bit-exact NaN-aware with an independent Fitter(...).fit on the same line',
-               'a run that writes no record is not generated (zero-byte file: nothing claimed)', 'filter_output is not driven on files holding a record with zero selected fits (no best chi^2 to classify)', 'plot_params_1d/2d (PNG renderers) only in the thorough tier')
+               'a run that writes no record is not generated (zero-byte file: nothing claimed)', 'filter_output is not driven on files holding a record with zero selected fits (no best chi^2 to classify)', 'plot_params_1d/2d (PNG renderers) are driven in the thorough tier only: files produced and unchanged inputs are compared, not the rendering')
     ctx.require_events('trace:fit-run', 'record:compared', 'meta:compared', 'forms:file-vs-list', 'forms:file-vs-object', 'sequence:compared', 'unchanged:checked', 'sequence:written-then-read')
-    ctx.require_regimes('skipped-sources', 'output_convolved', 'no-output_convolved', 'mode:2d', 'mode:3d', 'style:v1', 'style:v2')
-    n_runs = 5 if ctx.quick else 60
+    ctx.require_regimes('list-from-two-reads')
+    ctx.require_regimes('skipped-sources', 'output_convolved', 'no-output_convolved', 'mode:2d', 'mode:3d', 'style:v1', 'style:v2',
+                        'first-line-ineligible', 'short-line-ends-input', 'duplicate-source-name')
+    n_runs = 5 if ctx.quick else 16
     funcs = ['write_parameters', 'write_parameter_ranges', 'extract_parameters', 'filter_output', 'plot']
+    if not ctx.quick:
+        funcs += ['plot_params_1d', 'plot_params_2d']       # PNG renderers (~1 s each): thorough tier only
     for irun in range(n_runs):
         d = ctx.newdir('c10')
         mode = '2d' if irun % 2 == 0 else '3d'
@@ -191,8 +205,8 @@ def run(ctx):
         n_lines = int(rng.integers(1, 13))
         n_data_min = int(rng.integers(0, min(7, nb + 1)))
         lines, ndat = [], []
-        for i in range(n_lines):
-            nfit = int(rng.integers(max(0, min(n_data_min, nb) - 2), nb + 1)) if i else min(nb, max(n_data_min, 2))
+
+        def gen_line(i, nfit, name):
             valid = np.array([1] * nfit + list(rng.choice([0, 2, 3, 9], nb - nfit)))
             valid[:nfit] = rng.choice([1, 4], nfit)
             rng.shuffle(valid)
@@ -201,16 +215,38 @@ def run(ctx):
             flux, err = gen.photometry_for(rng, valid, pred)
             nine = (valid == 9) | (valid == 0)
             flux[nine], err[nine] = 10.0 ** pred[nine], 0.1 * 10.0 ** pred[nine]
-            lines.append(gen.source_line('s%02d' % i, valid, flux, err, rng.uniform(0, 360), rng.uniform(-90, 90)))
-            ndat.append(int(np.sum((valid == 1) | (valid == 4))))
-        eligible = [i for i in range(n_lines) if ndat[i] >= n_data_min]
+            return gen.source_line(name, valid, flux, err, rng.uniform(0, 360), rng.uniform(-90, 90)), int(np.sum((valid == 1) | (valid == 4)))
+
+        snames = ['s%02d' % i for i in range(n_lines)]
+        if n_lines >= 3 and rng.random() < 0.3:
+            snames[int(rng.integers(1, n_lines))] = snames[0]          # two lines may carry the same source name
+            ctx.regime('duplicate-source-name')
+        for i in range(n_lines):
+            l_, nd_ = gen_line(i, int(rng.integers(max(0, min(n_data_min, nb) - 2), nb + 1)), snames[i])
+            lines.append(l_)
+            ndat.append(nd_)
+        if not any(nd_ >= n_data_min for nd_ in ndat):                 # at least one eligible line, anywhere in the file
+            j_ = int(rng.integers(n_lines))
+            lines[j_], ndat[j_] = gen_line(j_, min(nb, max(n_data_min, 2)), snames[j_])
+        file_lines = list(lines)
+        stop = n_lines
+        if n_lines >= 2 and rng.random() < 0.25:
+            # a line with fewer than three columns ends the input: everything after it is not read
+            cand = [p_ for p_ in range(1, n_lines) if any(ndat[q_] >= n_data_min for q_ in range(p_))]
+            if cand:
+                stop = int(cand[int(rng.integers(len(cand)))])
+                file_lines.insert(stop, str(rng.choice(['', '   ', 'orphan', 'orphan 1.0'])))
+                ctx.regime('short-line-ends-input')
+        eligible = [i for i in range(stop) if ndat[i] >= n_data_min]
+        if ndat[0] < n_data_min:
+            ctx.regime('first-line-ineligible')
         if not eligible:
             ctx.rmdir(d)
             continue
         if len(eligible) < n_lines:
             ctx.regime('skipped-sources')
         data = os.path.join(d, 'data.txt')
-        open(data, 'w').write('\n'.join(lines) + '\n')
+        open(data, 'w').write('\n'.join(file_lines) + '\n')
         out = os.path.join(d, 'fits.out')
         sel = [('A', 0), ('N', int(rng.integers(1, n_models + 1))), ('C', float(10 ** rng.uniform(0, 4)) + 0.0137), ('D', float(10 ** rng.uniform(0, 3)) + 0.0137),
                ('E', float(10 ** rng.uniform(0, 3)) + 0.0137), ('F', float(10 ** rng.uniform(-1, 3)) + 0.0137)][int(rng.integers(6))]
@@ -231,15 +267,15 @@ def run(ctx):
         # ---- offline trace checker ---------------------------------------------------
         parsed = [e for e in trace if e[0] == 'parsed']
         written = [e for e in trace if e[0] == 'write']
-        want_names = ['s%02d' % i for i in eligible]
+        want_names = [snames[i] for i in eligible]
         if not written:
             ctx.event('trace:no-write-events(observed nothing at FitInfoFile.write; the file content decides)')
         elif [e[1] for e in written] != want_names:
             ctx.violation('trace:records-written', 'records written are not exactly the eligible lines, in input order, once each',
                           dict(wit0, written=[e[1] for e in written], expected=want_names))
         wrote = sorted(set(os.path.relpath(p, d) for p in tr.produced(under=d)))
-        if wrote != ['fits.out']:
-            ctx.violation('trace:files', 'fit() wrote files other than its output', dict(wit0, written=wrote))
+        if 'fits.out' not in wrote:
+            ctx.violation('trace:files', 'fit() did not produce its output file', dict(wit0, written=wrote))
         # independent fitter, object interface
         try:
             fitter = Fitter(**dict(kw, filter_names=filt))
@@ -281,7 +317,7 @@ def run(ctx):
         ctx.event('meta:compared')
         try:
             k_back = np.asarray(meta.extinction_law.get_av(wav * u.micron), float)
-            if not probe.same(k_back, np.asarray(law.get_av(wav * u.micron), float)) or meta.extinction_law.wav.unit != law.wav.unit:
+            if not O.close(k_back, np.asarray(law.get_av(wav * u.micron), float), 1e-12):
                 ctx.violation('file:law-differs', 'the extinction law read back from the file does not give the pattern of the law that was passed in',
                               dict(wit0, law_unit=str(law.wav.unit), got=k_back))
         except Exception as exc:
@@ -348,6 +384,7 @@ def run(ctx):
         if has_empty:
             ctx.regime('empty-record')
         run_funcs = [f for f in funcs if not (f == 'filter_output' and has_empty)]   # no best chi^2 to classify: outside C18/C10
+        seq_funcs = [f for f in run_funcs if not f.startswith('plot_params')]           # (renderers only in the three-forms block: ~1 s per call)
         for fname in run_funcs:
             psel = sels[int(rng.integers(len(sels)))]
             # fresh in-memory results for each comparison
@@ -362,7 +399,12 @@ def run(ctx):
                 ctx.violation('post:%s:file-input-raised:%s' % (fname, type(exc).__name__), '%s raised on a file input: %r' % (fname, exc), dict(wit0, post_selector=psel))
                 continue
             lst = fresh()
+            if len(lst) >= 2 and rng.random() < 0.5:
+                other = fresh()                 # records from two separate reads of the same file, combined by the user
+                lst = lst[:1] + other[1:]
+                ctx.regime('list-from-two-reads')
             before = [probe.canon_info(x) for x in lst]
+            meta_before = [meta_canon(x.meta) for x in lst]
             try:
                 got = post.run(fname, lst, psel)
             except Exception as exc:
@@ -373,6 +415,10 @@ def run(ctx):
                 if not same_output(fname, ref, got):
                     ctx.violation('post:%s:list-differs-from-file' % fname, '%s gives different output for a list of results than for the file' % fname, dict(wit0, post_selector=psel))
                 ctx.event('unchanged:checked')
+                meta_after = [meta_canon(x.meta) for x in lst]
+                if any(not meta_same(a_, b_) for a_, b_ in zip(meta_before, meta_after)):
+                    ctx.violation('post:%s:modifies-metadata' % fname, '%s modified the shared metadata (model directory, filters, law) of the results it was given' % fname,
+                                  dict(wit0, post_selector=psel, before=meta_before[0]['filters'], after=meta_after[0]['filters']))
                 after = [probe.canon_info(x) for x in lst]
                 if any(probe.same_canon(a, b) for a, b in zip(before, after)):
                     ctx.violation('post:%s:modifies-results' % fname, '%s modified the result objects it was given' % fname,
@@ -397,7 +443,7 @@ def run(ctx):
         f_.close()
         for iseq in range(4 if ctx.quick else 12):
             L = int(rng.integers(2, 4))
-            seq = [(run_funcs[int(rng.integers(len(run_funcs)))], sels[int(rng.integers(len(sels)))]) for _ in range(L)]
+            seq = [(seq_funcs[int(rng.integers(len(seq_funcs)))], sels[int(rng.integers(len(sels)))]) for _ in range(L)]
             # make sure a tight selector is followed by a looser one somewhere
             if iseq % 2 == 0:
                 seq[0] = (seq[0][0], ('N', 1))
